@@ -18,6 +18,9 @@ require (
 	github.com/shopspring/decimal v1.4.0
 	github.com/spf13/viper v1.19.0
 	github.com/wealdtech/go-eth2-types/v2 v2.8.2
+	github.com/wealdtech/go-eth2-wallet-encryptor-keystorev4 v1.4.1
+	github.com/wealdtech/go-eth2-wallet-nd/v2 v2.5.0
+	github.com/wealdtech/go-eth2-wallet-store-filesystem v1.18.1
 	github.com/wealdtech/go-eth2-wallet-types/v2 v2.12.0
 	github.com/wealdtech/go-majordomo v1.1.1
 )
@@ -74,11 +77,8 @@ require (
 	github.com/wealdtech/go-eth2-wallet v1.17.0 // indirect
 	github.com/wealdtech/go-eth2-wallet-dirk v1.5.1 // indirect
 	github.com/wealdtech/go-eth2-wallet-distributed v1.2.1 // indirect
-	github.com/wealdtech/go-eth2-wallet-encryptor-keystorev4 v1.4.1 // indirect
 	github.com/wealdtech/go-eth2-wallet-hd/v2 v2.7.0 // indirect
 	github.com/wealdtech/go-eth2-wallet-keystore v1.0.0 // indirect
-	github.com/wealdtech/go-eth2-wallet-nd/v2 v2.5.0 // indirect
-	github.com/wealdtech/go-eth2-wallet-store-filesystem v1.18.1 // indirect
 	github.com/wealdtech/go-eth2-wallet-store-s3 v1.12.0 // indirect
 	github.com/wealdtech/go-eth2-wallet-store-scratch v1.7.2 // indirect
 	github.com/wealdtech/go-indexer v1.1.0 // indirect
